@@ -81,7 +81,18 @@ def judge_simplify(ctx: Ctx, ev: P.Event, case: Any, nested: bool) -> None:  # n
             ctx.violation("raise-on-feasible" + (":" + audit if audit else ""), "simplify raised ValueError for %s in "
                           "context %s, which has an interior point" % (X.fmt_list(src), X.fmt_list(cx)), case, w)
         else:
-            ctx.count("simplify:raise-justified")
+            # thin systems (feasible without an interior point, e.g. equalities): only judged through the solver
+            # boundary - a ValueError drawn from a presolved solve that was never repeated is pacti's own doing
+            r2, w2 = X.check(X.box(names), X.conj(src + cx))
+            if r2 == "sat":
+                audit = M.lp_audit(ev.walk())
+                ctx.count("simplify:raise-on-thin-feasible:%s" % audit)
+                if audit == "lp-retry-missing":
+                    ctx.violation("raise-on-thin-feasible:lp-retry-missing", "simplify raised ValueError for %s in "
+                                  "context %s, which is satisfiable, after a presolved solve that reported no optimum "
+                                  "and was not repeated without presolve" % (X.fmt_list(src), X.fmt_list(cx)), case, w2)
+            else:
+                ctx.count("simplify:raise-justified")
         return
     res = M._L(ev.res)
     if res is None:
@@ -357,6 +368,14 @@ CORE = [
      "ctx": [{"c": {"e": -0.0101, "a": -250000.0}, "k": 500000.10985999997}]},
     {"kind": "list", "family": "core", "style": "wide", "terms": [{"c": {"a": -948.8, "c": -1000000.0, "e": -0.0008812}, "k": -2000948.8025435999}, {"c": {"b": -3.0, "e": 1000000.0, "a": 1000000.0}, "k": 3999992.234}, {"c": {"a": -1.234, "e": 1000.0, "d": 250000.0}, "k": -496966.304}], "ctx": [{"c": {"c": -78.9}, "k": 1000.0}, {"c": {"d": 123400.0, "c": -9.999}, "k": -370199.5}, {"c": {"a": 1.234, "c": 0.5, "e": -0.02116}, "k": -3.24432}]},
     {"kind": "list", "family": "core", "style": "wide", "terms": [{"c": {"b": -0.0001, "a": 1000.0}, "k": 0.9997}, {"c": {"a": -1.234}, "k": 1.234}, {"c": {"a": 0.0006429}, "k": 0.001}, {"c": {"b": -9.99995e-05}, "k": 12.4997}, {"c": {"b": 10090.0, "a": 7.708}, "k": 30270.0001}], "ctx": [{"c": {"b": -0.0001}, "k": 12.4997}]},
+    # satisfiable equality systems whose presolved LP reports "infeasible" (the helper's second solve finds the optimum)
+    {"kind": "list", "family": "core", "style": "wide", "ctx": [],
+     "terms": [{"c": {"a": 0.001}, "k": 0.001}, {"c": {"a": -0.001}, "k": -0.001}, {"c": {"a": -4567.0}, "k": -4567.0}]},
+    {"kind": "list", "family": "core", "style": "wide",
+     "terms": [{"c": {"b": 1.0}, "k": 2.0}, {"c": {"b": -1.0}, "k": -2.0},
+               {"c": {"b": 279500.0, "c": 440100.0}, "k": 740200.0},
+               {"c": {"b": -279500.0, "c": -440100.0}, "k": -740200.0}, {"c": {"c": -250000.0}, "k": 251000.0}],
+     "ctx": [{"c": {"c": -3.0}, "k": 6.0001}, {"c": {"b": -7373.0}, "k": 3.0}]},
     {"kind": "list", "family": "core", "style": "int", "terms": [{"c": {}, "k": 0.0}, {"c": {}, "k": 1.0},
                                                                  {"c": {}, "k": 2.5}], "ctx": [{"c": {}, "k": 1.0}]},
     {"kind": "list", "family": "core", "style": "float",
